@@ -196,15 +196,19 @@ def probe_threshold(rep, r, n):
         bkg = gens.image(r, ny, nx, special=0) if r.random() < 0.5 else gens.dy(r)
         err = np.abs(gens.image(r, ny, nx, special=0)) if r.random() < 0.5 else abs(gens.dy(r))
         ns = r.choice([0.5, 1.0, 2.0, 3.0])
+        # the image itself may be integer or float32 (the threshold is still background + nsigma * error, not cast to the image dtype)
+        dt = r.choice(['float64', 'float64', 'int16', 'uint16', 'float32', 'int64'])
+        if dt != 'float64':
+            data = np.nan_to_num(np.round(np.abs(data) if dt == 'uint16' else data), nan=0.0, posinf=0.0, neginf=0.0).astype(dt)
         with warnings.catch_warnings():
             warnings.simplefilter('ignore')
             t = detect_threshold(data, ns, background=bkg, error=err)
         exp = np.broadcast_to(bkg, data.shape) + ns * np.broadcast_to(err, data.shape)
-        rep.case(('thr', data.tobytes(), ns), True, kind='detect_threshold')
+        rep.case(('thr', data.tobytes(), ns, dt), True, kind=f'detect_threshold:{dt}')
         rep.probe_only += 1
         if t.shape != data.shape or not np.array_equal(t, exp):
             rep.violation('detect_threshold-formula', 'detect_threshold != background + nsigma*error',
-                          {'data': data.tolist(), 'background': np.asarray(bkg).tolist(),
+                          {'data': data.tolist(), 'dtype': dt, 'background': np.asarray(bkg).tolist(),
                            'error': np.asarray(err).tolist(), 'nsigma': ns})
 
 
